@@ -24,6 +24,8 @@ registry! {
     "C07" => c07,
     "C11" => c11,
     "C12" => c12,
+    "C13" => c13,
+    "C17" => c17,
     "C18" => c18,
 }
 
